@@ -199,12 +199,13 @@ func HarnessUnpackStep() {
 	envWriteFile("/w/v", 0600, 100, "v")
 	lname := verif.Bytes("pre.link", 1)
 	verif.Assume(lname[0] != '/' && lname[0] != 0 && lname != ".")
-	if verif.Bool("pre.dir") {
+	if verif.Param("preDir", 1) == 1 && verif.Bool("pre.dir") {
 		dname := verif.Bytes("pre.dirname", 1)
 		verif.Assume(dname[0] != '/' && dname[0] != 0 && dname != "." && dname != lname)
 		envMkdir("/w/d/"+dname, 0755, 100)
 	}
-	envSymlink("/w/d/"+lname, symPath("pre.target", verif.Param("sPre", 3), 1, true), 100)
+	preTarget := symPath("pre.target", verif.Param("sPre", 3), 1, true)
+	envSymlink("/w/d/"+lname, preTarget, 100)
 	// does the pre-state satisfy the invariant "every link under dst resolves inside dst"?
 	preWhere, preTerm := refPhysical("/w/d/" + lname)
 	preOK := !preTerm || refHasPrefix(preWhere, []string{"w", "d"})
@@ -220,7 +221,8 @@ func HarnessUnpackStep() {
 	verif.Assert("C01-nothing-outside-dst-touched", envChangedOutside(unpackDst) == "")
 	// inductive step for C04: from a state in which every link resolves inside dst, a further
 	// entry leaves it so (entries in the class of the open finding excluded)
-	r3 := false
+	// (a pre-state link with ".." after a name can only have been created through that class)
+	r3 := unpackDotDotAfterName(preTarget)
 	for _, e := range entries {
 		if e.Typeflag == tar.TypeSymlink && unpackDotDotAfterName(e.Linkname) {
 			r3 = true
